@@ -60,6 +60,13 @@ def make_run(g, seed):
                 st["nc"] = rng.choice([num, num, max(1, num - 1)])
             steps.append(st)
     steps.append({"op": "idle"})
+    # optional history before the read/assignment: a group cancelled while its spawner may be blocked, a flush
+    if labels and rng.random() < 0.35:
+        steps.append({"op": "cancel_group", "p": 0, "r": rng.choice(labels)[0]})
+        steps.append({"op": "idle"})
+        if rng.random() < 0.5:
+            steps.append({"op": "flush", "p": 0, "rex": 1})
+            steps.append({"op": "idle"})
     # let some finish before the assignment
     gates = [["w", lab, i, 0] for lab, num in labels for i in range(num)]
     for _ in range(rng.choice([0, 0, 1, 2])):
